@@ -3,6 +3,7 @@
 #include "xai_val.h"
 #include "llvm/IR/GlobalVariable.h"
 #include <map>
+#include <algorithm>
 
 struct ByteCell {
   std::bitset<256> cs;      // possible values
@@ -17,10 +18,21 @@ struct RegionData {
   std::map<int64_t, ByteCell> sparse;   // individually tracked bytes beyond the dense prefix (constant-offset writes)
   ByteCell rest;                        // summary of every other byte
   uint8_t provAll = 0;                  // union of every provenance ever written into the region (monotone)
-  int64_t nulLo = -1, nulHi = -1;       // a 0 byte was stored at one offset in [nulLo,nulHi] and not overwritten since
+  std::bitset<256> wset; int64_t wlimit = -1;       // byte values ever written below offset wlimit (report region only)
+  std::vector<std::pair<int64_t, int64_t>> nuls;   // each: a 0 byte was stored at one offset in [lo,hi] and not overwritten since
   void noteWrite(i128 a, i128 b, bool isNul) {          // write of [a,b)
-    if (isNul && b - a >= 1) { if (b - a == 1 || true) { nulLo = (int64_t)a; nulHi = (int64_t)(b - 1); } return; }
-    if (nulLo >= 0 && a <= nulHi && b > nulLo) nulLo = nulHi = -1;
+    // any write invalidates terminators it may overwrite
+    for (size_t i = 0; i < nuls.size();) { if (a <= nuls[i].second && b > nuls[i].first) nuls.erase(nuls.begin() + (long)i); else i++; }
+    if (isNul && b - a >= 1) {
+      nuls.emplace_back((int64_t)a, (int64_t)(b - 1));
+      std::sort(nuls.begin(), nuls.end());
+      if (nuls.size() > 12) nuls.resize(12);
+    }
+  }
+  // first recorded terminator at or after offset o: returns hi or -1
+  int64_t nulAfter(i128 o, int64_t *lo = nullptr) const {
+    for (auto &m : nuls) if (m.first >= o) { if (lo) *lo = m.first; return m.second; }
+    return -1;
   }
   mutable uint64_t hcache = 0; mutable bool hvalid = false;   // cached content hash (invalidated by Region::w())
   std::map<int64_t, std::pair<unsigned, Val>> scalars;   // exact-offset typed cells (offset -> (size, value))
@@ -33,11 +45,13 @@ struct RegionData {
   void setStrong(i128 o, const ByteCell &c) {
     if (o < 0) return;
     provAll |= c.prov;
+    if (o < wlimit) wset |= c.cs;
     if (o < (i128)bytes.size()) bytes[(size_t)o] = c; else sparse[(int64_t)o] = c;
   }
   void join(i128 o, const ByteCell &c) {
     if (o < 0) return;
     provAll |= c.prov;
+    if (o < wlimit) wset |= c.cs;
     if (o < (i128)bytes.size()) { bytes[(size_t)o].cs |= c.cs; bytes[(size_t)o].prov |= c.prov; return; }
     auto it = sparse.find((int64_t)o);
     if (it != sparse.end()) { it->second.cs |= c.cs; it->second.prov |= c.prov; }
@@ -47,6 +61,7 @@ struct RegionData {
   void joinRange(i128 lo, i128 hi, const ByteCell &c) {
     if (lo < 0) lo = 0;
     provAll |= c.prov;
+    if (lo < wlimit) wset |= c.cs;
     for (i128 o = lo; o < hi && o < (i128)bytes.size(); o++) { bytes[(size_t)o].cs |= c.cs; bytes[(size_t)o].prov |= c.prov; }
     if (hi > (i128)bytes.size()) {
       for (auto it = sparse.lower_bound((int64_t)std::max(lo, (i128)bytes.size())); it != sparse.end() && it->first < hi; ++it) { it->second.cs |= c.cs; it->second.prov |= c.prov; }
@@ -57,6 +72,7 @@ struct RegionData {
   void fillRange(i128 lo, i128 hi, const ByteCell &c) {
     if (lo < 0) lo = 0;
     provAll |= c.prov;
+    if (lo < wlimit && hi > lo) wset |= c.cs;
     for (i128 o = lo; o < hi && o < (i128)bytes.size(); o++) bytes[(size_t)o] = c;
     i128 b = std::max(lo, (i128)bytes.size());
     if (hi > b) {
